@@ -22,7 +22,7 @@ ASSUMPTIONS = ["a parameter declared pointer-to-const is not written through by 
                "relocated constants (.data.rel.ro*) are written only by the loader, before any thread of the program exists"]
 RULE = ("threadsx N seed nops profile: like `threads` with histories chosen by profile bits (printf/scanf, radix conversion around the precompute thresholds, "
         "factorial/binomial/fibonacci in table/sieve/prime-swing ranges, primality incl. the Miller-Rabin stage, one MT + one LC state per thread, reads of the "
-        "default mpf precision set before thread creation) and per-thread memory accounting (thread-local counters: balance zero, same totals as the sequential run); "
+        "default mpf precision set before thread creation; bit 6: thread 0 alone also uses the obsolete random functions on the global generator) and per-thread memory accounting (thread-local counters: balance zero, same totals as the sequential run); "
         "cells_trace [codes]: sequential API traces over the documented cells against the Lean cell model; distinct = distinct lines")
 
 def _calls(rng, n, readers_only=False):
@@ -50,7 +50,7 @@ def gen_ops(rng, tier, ctx=None):
     for i in range(40 if quick else 600):
         yield "cells_trace %s" % vec(_calls(rng, rng.choice([1, 2, 5, 12, 30]), readers_only=(i % 5 == 4)))
     # --- focused thread histories: every profile bit alone, then mixtures
-    profs = [1, 2, 4, 8, 16, 32] + ([63, 12, 33] if quick else [63] * 6 + [rng.randrange(1, 64) for _ in range(20)])
+    profs = [1, 2, 4, 8, 16, 32, 64 + 32 + 1] + ([63, 12, 127] if quick else [63] * 6 + [127] * 3 + [rng.randrange(1, 128) for _ in range(20)])
     for p in profs:
         n = rng.choice([2, 3, 4, 8]); nops = rng.choice([60, 120]) if quick else rng.choice([150, 400, 1000])
         if p in (2, 8): nops = min(nops, 80 if quick else 300)
@@ -73,7 +73,7 @@ def extra(ctx, cov):
     import random
     rng = random.Random("C15x-tsan-%d" % ctx.seed)
     quick = ctx.tier == "quick"
-    profs = [1, 2, 4, 8, 16, 32, 63] if quick else [1, 2, 4, 8, 16, 32] * 3 + [63] * 6
+    profs = [1, 2, 4, 8, 16, 32, 63, 64 + 16] if quick else [1, 2, 4, 8, 16, 32, 64 + 1, 64 + 32] * 3 + [127] * 6
     lines = []
     for p in profs:
         nops = rng.choice([40, 80]) if quick else rng.choice([100, 300])
